@@ -105,6 +105,9 @@ def io_obligations(P):
             towers = cfg.attrs["towers"].items
             wrote_z0 = False
             for r in rets:
+                n_before = len(obs)
+                # `if not np.all(np.isnan(z0_data))` is a test on recorded storage: both outcomes are examined (R-NC-FIELDS), neither is a guess
+                guessed = [d for d, _ in r.path if d.startswith("unknown test") and "numpy.all" not in d]
                 stores = [e[2] for e in r.events if e[0] == "item-store"]
                 dsets = [c for c in r.calls if c[0] == "xarray.Dataset"]
                 if len(dsets) != 1:
@@ -215,6 +218,13 @@ def io_obligations(P):
                         badk = [k for k, _ in ent.items[2].items if k in LOSSY_KEYS]
                         if badk:
                             obs.append(req_ob("R-NC-LOSSLESS", site, "variable %s carries no packing attributes" % vname, False, detail=str(badk)))
+                if guessed:
+                    # this path rests on a branch the interpreter could only guess (a test on a value it did not model): what
+                    # fails on it is a gap of the analysis, not a verdict
+                    for o in obs[n_before:]:
+                        if o.verdict == "differs":
+                            o.verdict = "uninterpretable"
+                            o.detail = "on a path that rests on a guessed branch (%s): %s" % (guessed[0][:80], o.detail)
             if z0:
                 obs.append(req_ob("R-NC-FIELDS", site, "a configured roughness length is written per step %s" % tag, wrote_z0, key={"var": "z0"}))
     # load
